@@ -70,8 +70,8 @@ def BW(m, m0, g0, *args):
         BW(m) = \\frac{1}{m_0^2 - m^2 -  i m_0 \\Gamma_0 }
 
     """
-    m0 = tf.cast(m0, m.dtype)
-    gamma = tf.cast(g0, m.dtype)
+    m0 = _cast(m0, m.dtype)
+    gamma = _cast(g0, m.dtype)
     x = m0 * m0 - m * m
     y = m0 * gamma
     s = x * x + y * y
@@ -91,7 +91,7 @@ def BWR(m, m0, g0, q, q0, L, d):
     """
     gamma = Gamma(m, g0, q, q0, L, m0, d)
     num = 1.0
-    m0 = tf.cast(m0, m.dtype)
+    m0 = _cast(m0, m.dtype)
     x = m0 * m0 - m * m
     y = m0 * gamma
     s = x * x + y * y
@@ -205,9 +205,9 @@ def BWR2(m, m0, g0, q2, q02, L, d):
     """
     gamma = Gamma2(m, g0, q2, q02, L, m0, d)
     num = 1.0
-    m0 = tf.cast(m0, m.dtype)
+    m0 = _cast(m0, m.dtype)
     x = tf.cast(m0 * m0 - m * m, gamma.dtype)
-    y = tf.cast(m0, gamma.dtype) * gamma
+    y = _cast(m0, gamma.dtype) * gamma
     d = x - 1j * y
     bw_x = tf.math.real(d)
     bw_y = tf.math.imag(d)
@@ -226,10 +226,10 @@ def BWR_normal(m, m0, g0, q2, q02, L, d):
     """
     gamma = Gamma2(m, g0, q2, q02, L, m0, d)
     num = 1.0
-    m0 = tf.cast(m0, m.dtype)
+    m0 = _cast(m0, m.dtype)
     x = tf.cast(m0 * m0 - m * m, gamma.dtype)
-    y = tf.cast(m0, gamma.dtype) * gamma
-    ret = tf.sqrt(tf.cast(m0, gamma.dtype) * gamma) / (x - 1j * y)
+    y = _cast(m0, gamma.dtype) * gamma
+    ret = tf.sqrt(_cast(m0, gamma.dtype) * gamma) / (x - 1j * y)
     return ret
 
 
@@ -241,10 +241,10 @@ def Gamma(m, gamma0, q, q0, L, m0, d):
         \\Gamma(m) = \\Gamma_0 \\left(\\frac{q}{q_0}\\right)^{2L+1}\\frac{m_0}{m} B_{L}'^2(q,q_0,d)
 
     """
-    q0 = tf.cast(q0, q.dtype)
+    q0 = _cast(q0, q.dtype)
     _epsilon = 1e-15
     qq0 = tf.where(q0 > _epsilon, (q / q0) ** (2 * L + 1), 1.0)
-    mm0 = tf.cast(m0, m.dtype) / m
+    mm0 = _cast(m0, m.dtype) / m
     bp = Bprime(L, q, q0, d) ** 2
     gammaM = gamma0 * qq0 * mm0 * tf.cast(bp, qq0.dtype)
     return gammaM
@@ -258,11 +258,11 @@ def Gamma2(m, gamma0, q2, q02, L, m0, d):
         \\Gamma(m) = \\Gamma_0 \\left(\\frac{q}{q_0}\\right)^{2L+1}\\frac{m_0}{m} B_{L}'^2(q,q_0,d)
 
     """
-    q02 = tf.cast(q02, q2.dtype)
+    q02 = _cast(q02, q2.dtype)
     _epsilon = 1e-15
     qq0 = q2 / q02
     qq0 = to_complex(qq0**L) * tf.sqrt(to_complex(qq0))
-    mm0 = tf.cast(m0, m.dtype) / m
+    mm0 = _cast(m0, m.dtype) / m
     z0 = q02 * d**2
     z = q2 * d**2
     bp = Bprime_polynomial(L, z0) / Bprime_polynomial(L, z)
@@ -274,7 +274,7 @@ def Bprime_q2(L, q2, q02, d):
     """
     Blatt-Weisskopf barrier factors.
     """
-    q02 = tf.cast(q02, q2.dtype)
+    q02 = _cast(q02, q2.dtype)
     _epsilon = 1e-15
     z0 = q02 * d**2
     z = q2 * d**2
@@ -354,7 +354,10 @@ def Bprime_polynomial(l, z):
     if l not in coeff:
         coeff[l] = [float(i) for i in get_bprime_coeff(l)]
         # raise NotImplementedError
-    z = tf.convert_to_tensor(z)
+    if isinstance(z, (int, float)):
+        z = tf.convert_to_tensor(z, dtype="float64")
+    else:
+        z = tf.convert_to_tensor(z)
     cof = [tf.convert_to_tensor(i, z.dtype) for i in coeff[l]]
     ret = tf.math.polyval(cof, z)
     return ret
